@@ -275,3 +275,13 @@ Proof.
   destruct (in_table cp combining); [lia|].
   destruct (in_table cp wide_ranges); lia.
 Qed.
+
+(* the widths the library documents hold of the tables as translated on this run *)
+Lemma documented_widths_hold :
+  forallb (fun e => spec_width (fst e) =? snd e) documented_widths = true.
+Proof. vm_compute. reflexivity. Qed.
+
+(* "+1160-11FF" of the rule that generated combining[] (comment in src/unicode.h) *)
+Lemma jamo_medial_final_zero_width :
+  forallb (fun k => spec_width (0x1160 + Z.of_nat k) =? 0) (seq 0 160) = true.
+Proof. vm_compute. reflexivity. Qed.
